@@ -440,6 +440,64 @@ pub fn huge_v(dir: &str, ops_path: &str, impl_path: &str, v4: bool) -> Vec<Strin
     violations
 }
 
+/// C07 at the size where the tables change shape: two handles on different streams append alternately until a
+/// version-3 file passes 110 FAT sectors (first DIFAT sector), with bystanders of every kind (a regular stream
+/// with state bits, a mini stream, a storage with a stream, a stream created late); every result is compared with
+/// the abstract model, at the end the bytes are reopened in both modes against the live state.
+pub fn huge_handles(ops_path: &str) -> Vec<String> {
+    let mut lines: Vec<String> = vec![
+        "create 3".into(),
+        format!("putpat {} {} 1", enc("/keep"), 5000),
+        format!("setbits {} 77", enc("/keep")),
+        format!("putpat {} {} 2", enc("/small"), 100),
+        format!("mkdir {}", enc("/dir")),
+        format!("putpat {} {} 3", enc("/dir/x"), 9000),
+        format!("mkstream {}", enc("/a")),
+        format!("mkstream {}", enc("/b")),
+        format!("hopen 0 {}", enc("/a")),
+        format!("hopen 1 {}", enc("/b")),
+    ];
+    for round in 0..76u64 {
+        lines.push(format!("hwrite 0 {}", hex(&pattern(50_000, round))));
+        lines.push(format!("hwrite 1 {}", hex(&pattern(50_000, 1000 + round))));
+        if round == 40 {
+            lines.push(format!("putpat {} {} 4", enc("/late"), 700));
+        }
+    }
+    lines.push("hflush 0".into());
+    lines.push("hflush 1".into());
+    lines.push("hclose 0".into());
+    lines.push("hclose 1".into());
+    let mut real = Real::new();
+    let mut model = RefModel::new();
+    let mut violations = vec![];
+    for (i, line) in lines.iter().enumerate() {
+        let observed = real.exec(line);
+        if observed == "panic" {
+            violations.push(format!("history 0 (seed 0) step {}: {} panicked: {}", i, short(line), real.last_panic.clone().unwrap_or_default().chars().take(160).collect::<String>()));
+            break;
+        }
+        if let Some(exp) = model.apply(line) {
+            if exp != observed {
+                violations.push(format!("history 0 (seed 0) step {}: {} gave {} but the abstract tree model says {}", i, short(line), short(&observed), short(&exp)));
+                break;
+            }
+        }
+    }
+    if violations.is_empty() {
+        let live = real.dump();
+        let expect = model.dump();
+        if live != expect {
+            violations.push(format!("history 0 (seed 0) step {}: after two handles appended 3.8 MB each: the file shows {} but the abstract tree model says {}", lines.len(), short(&live), short(&expect)));
+        } else if let Some(v) = reopen_violation(&mut real) {
+            violations.push(format!("history 0 (seed 0) step {}: after two handles appended 3.8 MB each: {}", lines.len(), v));
+        }
+    }
+    std::fs::write(ops_path, lines.iter().map(|l| if l.len() > 200 { format!("{}...", &l[..200]) } else { l.clone() }).collect::<Vec<_>>().join("\n") + "\n").unwrap();
+    println!("STAT huge_bytes {}", real.image().len());
+    violations
+}
+
 /// Re-executes an ops file; `image <file>` lines write the real image to `<file>.impl`.
 pub fn replay(ops_path: &str, impl_path: &str) -> Vec<String> {
     let text = std::fs::read_to_string(ops_path).unwrap();
